@@ -599,10 +599,10 @@ def text_paths(ctx):
     for r in rets:
         v = r.value
         ok = isinstance(v, ast.Call) and len(v.args) == 1 and isinstance(v.args[0], ast.Starred) \
-            and isinstance(v.args[0].value, ast.Name) and not v.keywords and \
+            and (isinstance(v.args[0].value, ast.Name) or v.args[0].value in comps or v.args[0].value in splits) and not v.keywords and \
             (is_name(v.func, fu.params[0]) or callee_qual(p, cu, v) == 'core.Path')
-        ctx.ob(ok, cu, 'every segment is passed to the Path constructor: %s' % norm(r), node=r)
-        if ok:
+        ctx.ob(ok, cu, 'every segment is passed to the Path constructor: %s' % norm(r)[:90], node=r)
+        if ok and isinstance(v.args[0].value, ast.Name):
             segvar = v.args[0].value.id
             # definitions of segvar reaching the return: the split or the unfiltered comprehension
             for dn, val in cfg.reaching_defs(cfg.node_of(r), segvar):
